@@ -162,6 +162,13 @@ def inputs(tier):
         out.append(dict(src='ligand', name=name))
     for kind in ('ARG', 'HIS', 'ASN', 'GLN', 'TRP'):
         out.append(dict(src='flat', kind=kind))
+    # real ligands in their binding sites (fused, slightly non-planar rings)
+    out.append(dict(src='corpus', d=corpus.cutout_desc('4DFR', 'B', 99, 9.0)))
+    out.append(dict(src='corpus', d=corpus.cutout_desc('1HPX', 'A', 24, 9.0)))
+    # metal sites: an ion at coordination distance from a protonatable nitrogen / oxygen
+    out.append(dict(src='corpus', d=corpus.cutout_desc('1FTJ', 'A', 42, 9.0)))
+    for ion, kind, dist in (('ZN', 'HIS', 2.1), ('ZN', 'HIS', 2.3), ('CA', 'ASP', 2.4), ('ZN', 'CYS', 2.3), ('MG', 'GLN', 2.1), ('FE', 'HIS', 2.2), ('ZN', 'LYS', 2.1)):
+        out.append(dict(src='corpus', d=corpus.pair_desc(kind, ion, dist, 'exposed')))
     if tier == 'thorough':
         out += [dict(src='corpus', d=d) for d in corpus.whole_chains()]
         out += [dict(src='corpus', d=d) for d in corpus.cutouts('quick', radius=9.0)]
@@ -247,7 +254,8 @@ def run_case(case, ctx, acc):
                                 continue
                             hs1 = h1.get(pkey)
                             if hs1 is None or len(hs1) != len(hs):
-                                bad = ('hydrogen-count-depends-on-pose', '%s: %d vs %s' % (pkey, len(hs), None if hs1 is None else len(hs1)))
+                                kind_ = 'hetero' if pkey[3].strip() not in gen.EXPECTED_ATOMS else 'protein'
+                                bad = ('hydrogen-count-depends-on-pose/' + kind_, '%s: %d vs %s' % (pkey, len(hs), None if hs1 is None else len(hs1)))
                                 break
                             perm, sg = rot
                             mapped = sorted(tuple(sg[i] * h[perm[i]] + t[i] / 1000.0 for i in range(3)) for h in hs)
@@ -269,7 +277,8 @@ def run_case(case, ctx, acc):
                                 break
                         for pkey in h1:
                             if pkey not in h0 and pkey not in rot1 and not bad:
-                                bad = ('hydrogen-count-depends-on-pose', '%s has hydrogens only in the moved pose' % (pkey,))
+                                kind_ = 'hetero' if pkey[3].strip() not in gen.EXPECTED_ATOMS else 'protein'
+                                bad = ('hydrogen-count-depends-on-pose/' + kind_, '%s has hydrogens only in the moved pose' % (pkey,))
                         if bad:
                             acc.viols.append(Viol(sub2, 'equivariance', bad[0] + '/' + mode, bad[1], inputs=dict(pdb=text0, moved=gen.to_text(moved), opts=list(opts))))
     finally:
